@@ -120,7 +120,7 @@ def run(pid, tier, seed, replay):
             ctx.add_violation(l["sig"], l["what"], [l["case"]])
     ok_cases = [c for c in cases if c.get("obs") and len(c["obs"]) == len(c["ops"])]
     mism, nshards = eval_cases(ctx, ok_cases)
-    comp = {1: "streams/partitions", 2: "consumer groups", 3: "data directories", 4: "which create's data a directory holds", 9: "the model rejects an operation the server applied"}
+    comp = {1: "streams/partitions", 2: "consumer groups", 3: "data directories", 4: "which create's data a directory holds", 8: "the model's precondition rejects an operation the leader's check accepted", 9: "the model rejects an operation the server applied"}
     for c, pos, d in mism[:3]:
         where = "live apply %d (%s)" % (pos, json.dumps(c["ops"][pos - 1])) if pos < 1000 else "rebuild %d (snapshot after %s, stopped after %s)" % (
             pos - 1000, c["restarts"][pos - 1000]["snap"], c["restarts"][pos - 1000]["stop"])
